@@ -14,6 +14,10 @@
 (*   Restore        FSM.Restore of the newest snapshot on a live node       *)
 (*   Restart        process start: fresh FSM{}, fresh globals, raft's       *)
 (*                  start-up sequence (Restore(newest), replay raft log)    *)
+(*   RestartWithEncoding(c)  the same process start with the flag           *)
+(*                  -pre1.0_protobuf switched: NewLevelDBStore runs         *)
+(*                  ConvertToProto on the raft log store and on the irclog  *)
+(*                  before raft starts (the encoding migration of a node)   *)
 (*   Tick           wall clock used as compactionStart advances             *)
 (*                                                                          *)
 (* The IRC state is abstracted (DESIGN 3.3/4.3) to: live session ids, the   *)
@@ -44,6 +48,18 @@
 (*    as a set of indices, content = log + mod.                             *)
 (*  - a crash inside Snapshot() is covered by SnapshotTake;Restart (the     *)
 (*    deletions are durable, everything else is volatile).                  *)
+(*  - encodings: every value of the two LevelDB stores and every snapshot   *)
+(*    record is an envelope (raft.Log as JSON, or 'p' + pb.RaftLog) around  *)
+(*    a payload (robust.Message as JSON, or 'p' + pb.RobustMessage); the    *)
+(*    model keeps both per entry (renc, ienc, snaps[j].renc).  The CONTENT  *)
+(*    of an entry is log[i] (+ mod) whatever its encoding: re-encoding must *)
+(*    not change a field -- that is the contract of ConvertToProto /        *)
+(*    CopyToProtoMessage / raftlog.FromBytes which the replay on the real   *)
+(*    code checks (raw entries before/after, state against the reference).  *)
+(*    The payload is written by the API in the encoding of the node's life, *)
+(*    the flag is only ever switched from JSON to protobuf (the JSON        *)
+(*    branches are marked "XXX(1.0): delete"), stores are smaller than      *)
+(*    ConvertToProto's batch size (100).                                    *)
 (***************************************************************************)
 EXTENDS Integers, Sequences, FiniteSets, TLC, Json
 
@@ -54,7 +70,9 @@ CONSTANTS
     Prelude,       \* entries already in the raft log at the start (not yet applied)
     DefaultExp, Grace,
     MaxLen, MaxGaps, MaxSnaps, MaxFails, MaxRestarts, MaxRestores, MaxPanics,
-    FixF2, FixF3
+    FixF2, FixF3,
+    InitEnc,       \* "json" | "proto": -pre1.0_protobuf of the node's first life
+    MaxMigrations  \* bound on RestartWithEncoding
 
 VARIABLES
     log,       \* the committed raft log (sequence of entries), append-only
@@ -70,11 +88,14 @@ VARIABLES
     up,        \* process running
     now,       \* wall clock (time.Now() / -canary_compaction_start when Snapshot() runs)
     hmax,      \* history: the newest compaction horizon the PROPERTY allows so far
+    enc,       \* *useProtobuf of the running (or last) process: "json" | "proto"
+    renc,      \* encoding of every value of the raft log store, parallel to log   (durable)
+    ienc,      \* encoding of every value of the irclog, a function on store       (durable)
     cnt,       \* bounds bookkeeping
     hist       \* history of actions (for replay on the real code; not in VIEW)
 
-vars == <<log, mod, applied, store, outs, srv, lss, exp, pending, snaps, up, now, hmax, cnt, hist>>
-view == <<log, mod, applied, store, outs, srv, lss, exp, pending, snaps, up, now, hmax, cnt>>
+vars == <<log, mod, applied, store, outs, srv, lss, exp, pending, snaps, up, now, hmax, enc, renc, ienc, cnt, hist>>
+view == <<log, mod, applied, store, outs, srv, lss, exp, pending, snaps, up, now, hmax, enc, renc, ienc, cnt>>
 
 None == [none |-> TRUE]
 
@@ -104,6 +125,9 @@ AlphaMod  == {TLine(1), TPanic(1), TPanic(2), TCreate, TRaft}    \* C07
 \* returns ErrSessionLimitReached) are still entries of the irclog and of every fold
 AlphaLim  == {TCreate, TLine(1), TLine(2), TLimit(1), TLimit(2), TRaft}
 AlphaLimS == {TCreate, TLimit(1)}
+\* encoding migration: bookkeeping across the restart (C02), messages of death in both lives (C07)
+AlphaMigB == {TLine(1), TRaft}
+AlphaMig  == {TLine(1), TPanic(1)}
 AlphaAll  == {TCreate, TLine(1), TLine(2), TDelete(1), TDelete(2), TConfig(1), TConfig(90),
               TConfig(0), TLimit(1), TLimit(2), TBadCfg, TPanic(1), TPanic(2), TRaft}
 
@@ -197,6 +221,41 @@ MinOf(S) == CHOOSE x \in S : \A y \in S : x <= y
 MaxOf(S) == CHOOSE x \in S : \A y \in S : x >= y
 
 ---------------------------------------------------------------------------
+(* Encodings (internal/raftstore/leveldb.go, internal/raftlog, robust.go). *)
+(* env = the raft.Log envelope, data = the robust.Message payload ("none"  *)
+(* for raft-internal entries, which carry no robust.Message).              *)
+Encs == {"json", "proto"}
+EncR(v, d) == [env |-> v, data |-> d]
+PP == EncR("proto", "proto")
+
+\* LevelDBStore.StoreLogs of a node living in encoding c, of an entry whose payload the
+\* API (api.applyMessageWait, same flag) encoded in c
+Written(c, e) == EncR(c, IF e.kind = "raft" THEN "none" ELSE c)
+\* deferred recover() in applyProto: the payload is re-marshalled in ITS encoding
+\* (l.Data[0] == 'p' decides), the envelope is always written by StoreLogProto
+Marked(x) == EncR("proto", x.data)
+\* FSM.Apply in life c copies the entry into the irclog: ircstore.StoreLogProto(&p) /
+\* ircstore.StoreLog(l); the payload bytes are the raft log's
+IrcCopy(c, x) == EncR(c, x.data)
+
+\* LevelDBStore.ConvertToProto over a store whose values have the encodings f (a function
+\* on a set of indices), in key order: a raft-internal value is re-encoded unless its
+\* envelope is protobuf already; a command value whose envelope or payload is still JSON
+\* is re-encoded (raftlog.FromBytes, NewMessageFromBytes, CopyToProtoMessage); the first
+\* command value found fully converted ends the pass ("database already converted") and
+\* the batch collected so far is NOT written (it is only flushed beyond 100 entries).
+RECURSIVE ConvFrom(_, _, _)
+ConvFrom(f0, f, K) ==
+    IF K = {} THEN f
+    ELSE LET i == CHOOSE x \in K : \A y \in K : x <= y IN
+         IF f[i].data = "none" THEN ConvFrom(f0, [f EXCEPT ![i] = EncR("proto", "none")], K \ {i})
+         ELSE IF f[i] = PP THEN f0
+         ELSE ConvFrom(f0, [f EXCEPT ![i] = PP], K \ {i})
+ConvertToProto(f) == ConvFrom(f, f, DOMAIN f)
+\* raftstore.NewLevelDBStore(dir, _, useProtobuf)
+OpenStore(c, f) == IF c = "proto" THEN ConvertToProto(f) ELSE f
+
+---------------------------------------------------------------------------
 (* Node-level effect of FSM.Apply(log[i]) on the volatile/durable pieces.  *)
 NS(st, sv, ou, ex) == [store |-> st, srv |-> sv, outs |-> ou, exp |-> ex]
 
@@ -229,22 +288,40 @@ RestoreOf(s, l0, e0) ==
     IN [ns |-> ns,
         lss |-> [k \in DOMAIN l0 \cup {s.li} |-> IF k = s.li THEN s.base ELSE l0[k]]]
 
-\* what a process start produces from the durable state (raftlog incl. mod,
-\* irclog, snapshot store): raft's start-up sequence
-AfterRestart ==
-    IF snaps = << >>
-    THEN [ns |-> ApplySet(NS(store, EMPTY, {}, 0), 1..Len(log)), lss |-> EmptyFn]
-    ELSE LET s == snaps[Len(snaps)]
-             r == RestoreOf(s, EmptyFn, 0)
-         IN [ns |-> ApplySet(r.ns, (s.ridx + 1)..Len(log)), lss |-> r.lss]
+\* the irclog values after FSM.Restore of snapshot s by a node living in encoding c:
+\* decodeProtobuf puts the snapshot's records into the fresh irclog as they are;
+\* decodeJson hands every retained entry to FSM.Apply (envelope of life c around the
+\* snapshot's payload bytes), then "if *useProtobuf { ircstore.ConvertToProto() }"
+RestoredEnc(s, c) ==
+    IF s.fmt = "proto" THEN s.renc
+    ELSE OpenStore(c, [i \in s.retained |-> IrcCopy(c, s.renc[i])])
+
+\* what a process start WITH ENCODING c produces from the durable state (raftlog incl.
+\* mod, irclog, snapshot store): NewLevelDBStore of both stores (conversion), then raft's
+\* start-up sequence.  Every command entry replayed from the raft log is copied into the
+\* irclog again.
+AfterRestart(c) ==
+    LET R == OpenStore(c, renc)
+        I == OpenStore(c, ienc)
+    IN IF snaps = << >>
+       THEN LET ns == ApplySet(NS(store, EMPTY, {}, 0), 1..Len(log))
+            IN [ns |-> ns, lss |-> EmptyFn, renc |-> R,
+                ienc |-> [i \in ns.store |-> IF i \in Cmd(Len(log)) THEN IrcCopy(c, R[i]) ELSE I[i]]]
+       ELSE LET s  == snaps[Len(snaps)]
+                r  == RestoreOf(s, EmptyFn, 0)
+                ns == ApplySet(r.ns, (s.ridx + 1)..Len(log))
+                J  == RestoredEnc(s, c)
+            IN [ns |-> ns, lss |-> r.lss, renc |-> R,
+                ienc |-> [i \in ns.store |-> IF i > s.ridx THEN IrcCopy(c, R[i]) ELSE J[i]]]
 
 ---------------------------------------------------------------------------
 Init ==
     /\ log = Prelude /\ mod = {} /\ applied = 0
     /\ store = {} /\ outs = {} /\ srv = EMPTY /\ lss = EmptyFn /\ exp = 0
     /\ pending = None /\ snaps = << >> /\ up = TRUE /\ hmax = -1
+    /\ enc = InitEnc /\ renc = [i \in 1..Len(Prelude) |-> Written(InitEnc, Prelude[i])] /\ ienc = EmptyFn
     /\ now = CHOOSE n \in Nows : \A m \in Nows : n <= m
-    /\ cnt = [snap |-> 0, fail |-> 0, restart |-> 0, restore |-> 0, panic |-> 0]
+    /\ cnt = [snap |-> 0, fail |-> 0, restart |-> 0, restore |-> 0, panic |-> 0, mig |-> 0]
     /\ hist = << >>
 
 H(a, i, e) == [a |-> a, i |-> i, now |-> now, e |-> e]
@@ -263,7 +340,13 @@ ApplyCommon(e) ==
     /\ up
     /\ applied < Len(log) => e = log[applied + 1]
     /\ log' = IF applied < Len(log) THEN log ELSE Append(log, e)
-    /\ UNCHANGED <<lss, pending, snaps, now, hmax>>
+    /\ UNCHANGED <<lss, pending, snaps, now, hmax, enc>>
+
+\* the raft log store when entry i is handed to FSM.Apply: raft has stored a fresh entry
+RencWith(e) == IF applied < Len(log) THEN renc ELSE Append(renc, Written(enc, e))
+\* "ircstore.StoreLog first": the irclog copy of a command entry
+IencWith(R, i, e) == IF e.kind = "raft" THEN ienc
+                     ELSE [k \in DOMAIN ienc \cup {i} |-> IF k = i THEN IrcCopy(enc, R[i]) ELSE ienc[k]]
 
 ApplyE(e) ==
        LET i == applied + 1 IN
@@ -272,6 +355,7 @@ ApplyE(e) ==
        /\ LET ns == ApplyNSL(log', NS(store, srv, outs, exp), i)
           IN /\ store' = ns.store /\ srv' = ns.srv /\ outs' = ns.outs /\ exp' = ns.exp
        /\ applied' = i
+       /\ renc' = RencWith(e) /\ ienc' = IencWith(renc', i, e)
        /\ UNCHANGED <<mod, up, cnt>>
        /\ hist' = Append(hist, H("Apply", i, e))
 
@@ -287,6 +371,9 @@ ApplyPanicsE(e) ==
        /\ cnt.panic < MaxPanics
        /\ store' = store \cup {i}
        /\ mod' = mod \cup {i}
+       \* the irclog keeps the copy made before the panic; the raft log store's value is rewritten
+       /\ LET R == RencWith(e) IN /\ ienc' = IencWith(R, i, e)
+                                  /\ renc' = [R EXCEPT ![i] = Marked(R[i])]
        /\ up' = FALSE
        /\ cnt' = [cnt EXCEPT !.panic = @ + 1]
        /\ UNCHANGED <<applied, outs, srv, exp>>
@@ -330,18 +417,22 @@ SnapshotTake ==
           /\ exp' = IF FixF3 \/ fcfg = {} THEN exp ELSE log[MaxOf(fcfg)].exp
           \* the horizon the property allows: expiration in force (live config) + grace
           /\ hmax' = LET h == now - (EffExp(srv.cexp) + Grace) IN IF h > hmax THEN h ELSE hmax
+    /\ ienc' = [i \in store' |-> ienc[i]]
     /\ cnt' = [cnt EXCEPT !.snap = @ + 1]
-    /\ UNCHANGED <<log, mod, applied, srv, snaps, up, now>>
+    /\ UNCHANGED <<log, mod, applied, srv, snaps, up, now, enc, renc>>
     \* i = 1 records that this snapshot folded every stored entry (used to select replays)
     /\ hist' = Append(hist, H("SnapshotTake", IF \A j \in store : ~Young(j) THEN 1 ELSE 0, NoE))
 
-\* Persist: state message + the entries found in the irclog in [first, last] NOW
+\* Persist: state message + the entries found in the irclog in [first, last] NOW.
+\* *useProtobuf selects the container ('p' + length-prefixed records, or a stream of
+\* JSON values); the irclog values are copied as they are.
 PersistOK ==
     /\ up /\ pending # None
-    /\ snaps' = Append(snaps, [ridx |-> pending.ridx, li |-> pending.li, base |-> pending.base,
-                               retained |-> {i \in store : pending.first <= i /\ i <= pending.last}])
+    /\ LET ret == {i \in store : pending.first <= i /\ i <= pending.last}
+       IN snaps' = Append(snaps, [ridx |-> pending.ridx, li |-> pending.li, base |-> pending.base,
+                                  retained |-> ret, fmt |-> enc, renc |-> [i \in ret |-> ienc[i]]])
     /\ pending' = None
-    /\ UNCHANGED <<log, mod, applied, store, outs, srv, lss, exp, up, now, hmax, cnt>>
+    /\ UNCHANGED <<log, mod, applied, store, outs, srv, lss, exp, up, now, hmax, enc, renc, ienc, cnt>>
     /\ hist' = Append(hist, H("PersistOK", 0, NoE))
 
 \* the sink fails; raft cancels it; the deletions of SnapshotTake stay
@@ -349,7 +440,7 @@ PersistFail ==
     /\ up /\ pending # None /\ cnt.fail < MaxFails
     /\ pending' = None
     /\ cnt' = [cnt EXCEPT !.fail = @ + 1]
-    /\ UNCHANGED <<log, mod, applied, store, outs, srv, lss, exp, snaps, up, now, hmax>>
+    /\ UNCHANGED <<log, mod, applied, store, outs, srv, lss, exp, snaps, up, now, hmax, enc, renc, ienc>>
     /\ hist' = Append(hist, H("PersistFail", 0, NoE))
 
 \* Restore of the newest snapshot on a running node (InstallSnapshot / user
@@ -362,32 +453,50 @@ Restore ==
        IN /\ store' = r.ns.store /\ srv' = r.ns.srv /\ outs' = r.ns.outs /\ exp' = r.ns.exp
           /\ lss' = r.lss
           /\ applied' = s.ridx
+          /\ ienc' = RestoredEnc(s, enc)
     /\ cnt' = [cnt EXCEPT !.restore = @ + 1]
-    /\ UNCHANGED <<log, mod, pending, snaps, up, now, hmax>>
+    /\ UNCHANGED <<log, mod, pending, snaps, up, now, hmax, enc, renc>>
     /\ hist' = Append(hist, H("Restore", 0, NoE))
 
-\* crash (if up) and process start
-Restart ==
-    /\ cnt.restart < MaxRestarts
-    /\ LET r == AfterRestart
+\* crash (if up) and process start with -pre1.0_protobuf = c
+Start(c) ==
+    /\ LET r == AfterRestart(c)
        IN /\ store' = r.ns.store /\ srv' = r.ns.srv /\ outs' = r.ns.outs /\ exp' = r.ns.exp
-          /\ lss' = r.lss
+          /\ lss' = r.lss /\ renc' = r.renc /\ ienc' = r.ienc
+    /\ enc' = c
     /\ applied' = Len(log)
     /\ pending' = None
     /\ up' = TRUE
-    /\ cnt' = [cnt EXCEPT !.restart = @ + 1]
     /\ UNCHANGED <<log, mod, snaps, now, hmax>>
+
+Restart ==
+    /\ cnt.restart < MaxRestarts
+    /\ Start(enc)
+    /\ cnt' = [cnt EXCEPT !.restart = @ + 1]
     /\ hist' = Append(hist, H("Restart", 0, NoE))
+
+\* the encoding migration of a node: it is stopped (or has crashed) and is started with
+\* the other value of -pre1.0_protobuf.  Both LevelDB stores are converted when they are
+\* opened (every value re-encoded, contents unchanged), a JSON snapshot is restored by
+\* decodeJson, the converted raft log is replayed through FSM.Apply.
+RestartWithEncoding(c) ==
+    /\ enc = "json" /\ c = "proto"               \* switched on, never off again
+    /\ cnt.mig < MaxMigrations
+    /\ Start(c)
+    /\ cnt' = [cnt EXCEPT !.mig = @ + 1]
+    /\ hist' = Append(hist, [a |-> "RestartEnc", i |-> 0, now |-> now, e |-> NoE, enc |-> c])
 
 TickTo(n) ==
     /\ up /\ n # now
     /\ now' = n
-    /\ UNCHANGED <<log, mod, applied, store, outs, srv, lss, exp, pending, snaps, up, hmax, cnt>>
+    /\ UNCHANGED <<log, mod, applied, store, outs, srv, lss, exp, pending, snaps, up, hmax, enc, renc, ienc, cnt>>
     /\ hist' = Append(hist, [a |-> "Tick", i |-> 0, now |-> n, e |-> NoE])
 
 Tick == \E n \in Nows : n > now /\ (\A m \in Nows : m > now => n <= m) /\ TickTo(n)
 
-Next == Apply \/ ApplyPanics \/ SnapshotTake \/ PersistOK \/ PersistFail \/ Restore \/ Restart \/ Tick
+Migrate == \E c \in Encs : RestartWithEncoding(c)
+
+Next == Apply \/ ApplyPanics \/ SnapshotTake \/ PersistOK \/ PersistFail \/ Restore \/ Restart \/ Migrate \/ Tick
 
 Spec == Init /\ [][Next]_vars
 
@@ -401,6 +510,10 @@ TypeOK ==
     /\ DOMAIN srv.marker = srv.sess
     /\ DOMAIN lss \subseteq 0..MaxLen
     /\ up \in BOOLEAN
+    /\ enc \in Encs
+    /\ DOMAIN renc = 1..Len(log) /\ DOMAIN ienc = store
+    /\ \A i \in 1..Len(log) : renc[i].env \in Encs /\ renc[i].data \in Encs \cup {"none"}
+    /\ \A j \in 1..Len(snaps) : snaps[j].fmt \in Encs /\ DOMAIN snaps[j].renc = snaps[j].retained
 
 \* C02 P1 / C07: the live server equals plain replay of the log (entries in
 \* mod contribute only their duplicate marker)
@@ -408,7 +521,7 @@ StateIsFullReplay == up => srv = Replay(applied)
 
 \* C02 P4: whatever a process start would produce now equals plain replay
 RestoreEqualsReplay ==
-    /\ AfterRestart.ns.srv = Replay(Len(log))
+    /\ \A c \in Encs : (c = enc \/ c = "proto") => AfterRestart(c).ns.srv = Replay(Len(log))
     /\ snaps # << >> => RestoreOf(snaps[Len(snaps)], EmptyFn, 0).ns.srv = Replay(snaps[Len(snaps)].ridx)
 
 \* every filed state is the replay up to its key (implementation level)
@@ -464,7 +577,25 @@ ModSkippedEverywhere ==
        /\ \A j \in 1..Len(snaps) : i \notin snaps[j].base.marks
 \* C07 progress: the process is down only because of the entry it just marked,
 \* and a start passes that entry and ends in the replay of the whole log
-ModProgress == (~up) => ((applied + 1) \in mod /\ AfterRestart.ns.srv = Replay(Len(log)))
+ModProgress == (~up) => ((applied + 1) \in mod /\ AfterRestart(enc).ns.srv = Replay(Len(log))
+                                               /\ AfterRestart("proto").ns.srv = Replay(Len(log)))
+
+\* Encodings (implementation level).  A JSON life leaves JSON values, except the envelope
+\* of a marked entry in the raft log store; from the migration on everything is protobuf
+\* (so the "already converted" shortcut of ConvertToProto never cuts a conversion short).
+EncUniform ==
+    /\ \A i \in 1..Len(log) :
+          IF enc = "proto" THEN renc[i] = Written("proto", log[i])
+          ELSE /\ renc[i].data = Written("json", log[i]).data
+               /\ renc[i].env = (IF i \in mod THEN "proto" ELSE "json")
+    /\ \A i \in store : ienc[i] = EncR(enc, enc)
+\* every snapshot can be read by the process that would restore it: a protobuf container
+\* holds 'p' records only (decodeProtobuf: "unexpected first byte"), a JSON container
+\* JSON values only (json.Decoder), and a JSON life never meets a protobuf snapshot
+SnapshotsReadable ==
+    \A j \in 1..Len(snaps) :
+       /\ \A i \in snaps[j].retained : snaps[j].renc[i].env = snaps[j].fmt
+       /\ (enc = "json") => snaps[j].fmt = "json"
 
 ---------------------------------------------------------------------------
 (* Getting behaviours out of TLC: every generated transition prints the    *)
